@@ -191,6 +191,10 @@ func buildResponse(req *http.Request, rp *Reply, n, k int) (*http.Response, stri
 	if rp.NilHdr && len(resp.Header) == 0 {
 		resp.Header = nil
 	}
+	if rp.UnknownLen && body == "" {
+		resp.ContentLength = -1
+		resp.Header.Del("Content-Length")
+	}
 	return resp, body, nil
 }
 
@@ -233,6 +237,8 @@ func (o *origin) RoundTrip(req *http.Request) (*http.Response, error) {
 				rs.emit("O\tSHARE\t%d\theader", n)
 			case req.URL == caller.URL:
 				rs.emit("O\tSHARE\t%d\turl", n)
+			case req.Body != nil && req.Body != http.NoBody && req.Body == caller.Body:
+				rs.emit("O\tSHARE\t%d\tbody", n)
 			}
 		}
 	}
@@ -248,6 +254,19 @@ func (o *origin) RoundTrip(req *http.Request) (*http.Response, error) {
 			hx(method), hx(urlStr), hdrs, outcome, dl)
 	}
 	ctx := req.Context()
+	if req.Cancel != nil { //nolint:staticcheck
+		// net/http's transports honour the request's Cancel channel like the context: so does the scripted origin
+		var stop context.CancelFunc
+		ctx, stop = context.WithCancel(ctx)
+		defer stop()
+		go func(ch <-chan struct{}, done <-chan struct{}) {
+			select {
+			case <-ch:
+				stop()
+			case <-done:
+			}
+		}(req.Cancel, ctx.Done()) //nolint:staticcheck
+	}
 	if rp.Hang {
 		// "never answers": until the context is cancelled; the harness itself gives up after 20
 		// virtual minutes (recorded as a leak at quiescence time) so that a history always ends
@@ -433,11 +452,16 @@ func (rs *runState) describeValue(b []byte) string {
 				}
 				// the length the cache records for a body without framing of its own is part of the serialisation
 				// (like the meta line), not a field of the stored response: checked and removed, as ParseResponse does
-				if v := resp.Header.Get("X-Httpcache-Stored-Body-Length"); v != "" && resp.ContentLength < 0 && len(resp.TransferEncoding) == 0 {
-					if n, err := strconv.Atoi(v); err != nil || n != len(body) {
+				// (it is the LAST line of that name: an origin field of the same name comes first and stays)
+				bodyAllowed := resp.StatusCode >= 200 && resp.StatusCode != 204 && resp.StatusCode != 304
+				if vs := resp.Header.Values("X-Httpcache-Stored-Body-Length"); len(vs) > 0 && bodyAllowed && resp.ContentLength < 0 && len(resp.TransferEncoding) == 0 {
+					if n, err := strconv.Atoi(vs[len(vs)-1]); err != nil || n != len(body) {
 						be = "bodyerr"
 					}
 					resp.Header.Del("X-Httpcache-Stored-Body-Length")
+					if len(vs) > 1 {
+						resp.Header["X-Httpcache-Stored-Body-Length"] = vs[:len(vs)-1]
+					}
 				}
 				rs.noteDates(resp.Header)
 				return "ent\t" + hx(meta[0]) + "\t" + tns(meta[1]) + "\t" + tns(meta[2]) + "\t" +
@@ -796,6 +820,20 @@ func runHistory(t *testing.T, h *History) (lines []string) {
 			if op.Method == "(empty)" {
 				req.Method = ""
 			}
+			if strings.HasPrefix(op.Cancel, "chan-") {
+				ch := make(chan struct{})
+				req.Cancel = ch //nolint:staticcheck // the deprecated channel is exactly what is under test
+				inner := cancels[n]
+				var once sync.Once
+				cancels[n] = func() { once.Do(func() { close(ch) }); inner() }
+				if op.Cancel == "chan-before" {
+					once.Do(func() { close(ch) })
+				}
+			}
+			if op.ReqBody != "" {
+				req.Body = io.NopCloser(strings.NewReader(op.ReqBody))
+				req.ContentLength = int64(len(op.ReqBody))
+			}
 			for _, p := range op.Hdr {
 				req.Header.Add(p[0], p[1])
 			}
@@ -919,6 +957,9 @@ func runHistory(t *testing.T, h *History) (lines []string) {
 				for _, m := range group {
 					if h.Ops[m].Cancel == "after" {
 						cancels[m]()
+					}
+					if h.Ops[m].Cancel == "chan-after" {
+						cancels[m]() // closes the Request.Cancel channel (and the context of the finished call)
 					}
 				}
 				synctest.Wait()
